@@ -56,12 +56,22 @@ def observe(cases, chunk=400):
     return obs
 
 
+# a spec with a class of cases in which its failure is a recorded finding: spec -> (Coq predicate on the case, finding id)
+KNOWN_CLASS = {"spec_C03_call": ("kf_C03_setter_class", "kf_C03_setter_via_setattr")}
+
+
 def evaluate(cases, obs, specs):
-    """codes per case: [disagree, spec_1 fails on impl, ..., spec_n fails on impl, spec_1 fails on model, ...]"""
+    """codes per case: [disagree, spec_1 fails on impl, ..., spec_n fails on impl, spec_1 fails on model, ...];
+    a spec code is 0 = holds, 1 = fails, 3 = fails inside the class of a recorded finding"""
     terms = []
+
+    def code(s, t):
+        if s in KNOWN_CLASS:
+            return "if %s c (fst %s) (snd %s) then 0 else if %s c then 3 else 1" % (s, t, t, KNOWN_CLASS[s][0])
+        return "if %s c (fst %s) (snd %s) then 0 else 1" % (s, t, t)
     for c, o in zip(cases, obs):
-        impl = " ; ".join("if %s c (fst o) (snd o) then 0 else 1" % s for s in specs)
-        mod = " ; ".join("if %s c (fst mo) (snd mo) then 0 else 1" % s for s in specs)
+        impl = " ; ".join(code(s, "o") for s in specs)
+        mod = " ; ".join(code(s, "mo") for s in specs)
         terms.append("(let c := %s in let o := %s in let mo := run_case c in "
                      "[if obs_eqb mo o then 0 else 1 ; %s ; %s])%%Z" % (G.cq_case(c), G.cq_obs(o), impl, mod))
     return C.coq_eval_lists(HEADER, terms, name="ck", chunk=120)
@@ -113,6 +123,7 @@ def run_into(out, build, problems, prop, tier, specs, gen_cases, nquick, nthorou
     codes = evaluate([c for c, _ in live], [o for _, o in live], specs)
     ns = len(specs)
     disagreements, spec_fail, model_fail = [], [], []
+    known_hits, known_example = collections.Counter(), {}
     shapes = collections.Counter()
     distinct = set()
     for (c, o), code in zip(live, codes):
@@ -122,10 +133,25 @@ def run_into(out, build, problems, prop, tier, specs, gen_cases, nquick, nthorou
         if code[0]:
             disagreements.append((c, o))
         for i in range(ns):
-            if code[1 + i]:
+            if code[1 + i] == 3:
+                known_hits[specs[i]] += 1
+                known_example.setdefault(specs[i], (c, o))
+            elif code[1 + i]:
                 spec_fail.append((specs[i], c, o))
-            if code[1 + ns + i]:
+            if code[1 + ns + i] == 1:
                 model_fail.append((specs[i], c, o))
+    kf = C.load_known_findings()
+    listed = {f["id"]: f for f in kf.get("findings", []) if f["property"] == prop}
+    for sname, n in known_hits.items():
+        fid = KNOWN_CLASS[sname][1]
+        if fid in listed:
+            out.known_finding("%s (%d cases in the class on this run)" % (listed[fid]["what"], n))
+        else:
+            c, o = known_example[sname]
+            out.violation("%s is false of the implementation's observation (in a class that is not a listed finding of "
+                          "this property)" % sname,
+                          {"case": c, "observation": o, "model_observation": model_observation(c),
+                           "script": render_checker.render_case(0, c), "how": "./check %s --replay <this file>" % prop})
     for sname, c, o in spec_fail[:3]:
         out.violation("%s is false of the implementation's observation" % sname,
                       {"case": c, "observation": o, "model_observation": model_observation(c),
@@ -164,6 +190,7 @@ def run_into(out, build, problems, prop, tier, specs, gen_cases, nquick, nthorou
         "corpus_cases": ncorpus,
         "disagreements": len(disagreements),
         "spec_failures_on_implementation": len(spec_fail),
+        "known_finding_hits": dict(known_hits),
         "distribution": dict(shapes.most_common(60)),
         "specs": specs,
     })
